@@ -390,6 +390,241 @@ def noreplay_pause_probe():
     return bad
 
 
+# ----------------------------------------------------------------------------- C16: configuration recorded by descriptors
+def configuration_probe():
+    """(a) a device whose configuration KEY SET changes when it is configured (a setting that only exists in one mode): the
+    descriptors made after `configure` record exactly what the device reports then -- no stale keys; (b) an old-style flyer
+    (streams from describe_collect) configured between two collects: the events of the second collect reference descriptors
+    that carry the new configuration"""
+    from bluesky.utils import Msg
+
+    class ModeDet:
+        parent = None
+
+        def __init__(self, name):
+            self.name, self.manual = name, True
+            self.gain, self.exposure = 4, 0.1
+
+        def read(self):
+            return {self.name: {"value": 1, "timestamp": 0.0}}
+
+        def describe(self):
+            return {self.name: {"source": "sim", "dtype": "number", "shape": []}}
+
+        def _cfg(self):
+            d = {f"{self.name}_exposure": self.exposure}
+            if self.manual:
+                d[f"{self.name}_gain"] = self.gain
+            return d
+
+        def read_configuration(self):
+            return {k: {"value": v, "timestamp": 1.0} for k, v in self._cfg().items()}
+
+        def describe_configuration(self):
+            return {k: {"source": "sim", "dtype": "number", "shape": []} for k in self._cfg()}
+
+        def configure(self, d):
+            old = self.read_configuration()
+            self.manual = d.get("manual", self.manual)
+            self.exposure = d.get("exposure", self.exposure)
+            return old, self.read_configuration()
+
+    bad = []
+    for streams in (("primary",), ("primary", "baseline")):
+        det = ModeDet("det")
+        RE, docs = _engine()
+        msgs = [Msg("open_run")]
+        for st in streams:
+            msgs += [Msg("create", name=st), Msg("read", det), Msg("save")]
+        msgs += [Msg("configure", det, {"manual": False, "exposure": 0.5})]
+        for st in streams:
+            msgs += [Msg("create", name=st), Msg("read", det), Msg("save")]
+        msgs += [Msg("close_run")]
+        out = _run(RE, _listplan(*msgs))
+        case = {"probe": "configuration", "streams": list(streams), "what": "key set shrinks"}
+        if out[0] != "return":
+            bad.append(("configuration:call-failed", f"{out[1]!r}", case))
+            continue
+        descs = [d for n, d in docs if n == "descriptor"]
+        for st in streams:
+            mine = [d for d in descs if d["name"] == st]
+            if len(mine) != 2:
+                bad.append(("configuration:stream-without-new-descriptor", f"stream {st}: {len(mine)} descriptors (one before, one after configure expected)", case))
+                continue
+            data = mine[-1]["configuration"]["det"]["data"]
+            if data != {"det_exposure": 0.5}:
+                bad.append(("configuration:descriptor-records-keys-the-device-no-longer-reports", f"stream {st}: after configure the device reports {{'det_exposure': 0.5}}; the new descriptor records {data}", case))
+            events = [d for n, d in docs if n == "event" and d["descriptor"] in {m["uid"] for m in mine}]
+            if events and events[-1]["descriptor"] != mine[-1]["uid"]:
+                bad.append(("configuration:later-event-references-old-descriptor", f"stream {st}", case))
+
+    # (b) old-style flyer
+    class Flyer:
+        parent = None
+        name = "flyer"
+
+        def __init__(self):
+            self.rate, self.t, self.pending = 10, 0.0, []
+
+        def kickoff(self):
+            self.pending = []
+            for _ in range(2):
+                self.t += 1.0
+                self.pending.append({"data": {"fast": self.t}, "timestamps": {"fast": self.t}, "time": self.t})
+            self.t += 1.0
+            self.pending.append({"data": {"slow": -self.t}, "timestamps": {"slow": self.t}, "time": self.t})
+            st = _Status()
+            st.finish(True)
+            return st
+
+        def complete(self):
+            st = _Status()
+            st.finish(True)
+            return st
+
+        def describe_collect(self):
+            return {"fly_fast": {"fast": {"source": "sim", "dtype": "number", "shape": []}},
+                    "fly_slow": {"slow": {"source": "sim", "dtype": "number", "shape": []}}}
+
+        def collect(self):
+            p, self.pending = self.pending, []
+            yield from p
+
+        def read_configuration(self):
+            return {"flyer_rate": {"value": self.rate, "timestamp": 1.0}}
+
+        def describe_configuration(self):
+            return {"flyer_rate": {"source": "sim", "dtype": "number", "shape": []}}
+
+        def configure(self, d):
+            old = self.read_configuration()
+            self.rate = d["rate"]
+            return old, self.read_configuration()
+
+    fly = Flyer()
+    RE, docs = _engine()
+    cyc = [Msg("kickoff", fly, group="k"), Msg("wait", None, group="k"), Msg("complete", fly, group="c"), Msg("wait", None, group="c"), Msg("collect", fly)]
+    out = _run(RE, _listplan(Msg("open_run"), *cyc, Msg("configure", fly, {"rate": 50}), *cyc, Msg("close_run")))
+    case = {"probe": "configuration", "what": "old-style flyer configured between collects"}
+    if out[0] != "return":
+        bad.append(("configuration:flyer-call-failed", f"{out[1]!r}", case))
+    else:
+        desc = {d["uid"]: d for n, d in docs if n == "descriptor"}
+        seen_cfg = False
+        for n, d in docs:
+            if n == "descriptor" and d["configuration"].get("flyer", {}).get("data", {}).get("flyer_rate") == 50:
+                seen_cfg = True
+            refs = [d["descriptor"]] if n in ("event", "event_page") else []
+            for u in refs:
+                rate = desc[u]["configuration"].get("flyer", {}).get("data", {}).get("flyer_rate")
+                if seen_cfg and rate != 50:
+                    bad.append(("configuration:collected-event-after-configure-references-old-descriptor", f"a {n} of stream {desc[u]['name']} collected after configure(rate=50) references a descriptor recording flyer_rate = {rate}", case))
+                    break
+        if not seen_cfg:
+            bad.append(("configuration:no-descriptor-with-new-configuration", "configure(flyer) emitted no descriptor recording rate 50", case))
+    return bad
+
+
+# ----------------------------------------------------------------------------- C41: monitor subscriptions (options, first delivery)
+class _MonSig:
+    parent = None
+
+    def __init__(self, name, deliver_on_subscribe):
+        self.name, self.deliver = name, deliver_on_subscribe
+        self.subs = []          # [(cb, kwargs)]
+        self.calls = []         # subscribe kwargs in call order
+        self.value = 1
+
+    def subscribe(self, cb, **kw):
+        self.subs.append((cb, dict(kw)))
+        self.calls.append(dict(kw))
+        if self.deliver:
+            cb()
+        return len(self.subs)
+
+    def clear_sub(self, cb):
+        self.subs = [(c, k) for c, k in self.subs if c != cb]
+
+    def read(self):
+        return {self.name: {"value": self.value, "timestamp": 0.0}}
+
+    def describe(self):
+        return {self.name: {"source": "sim", "dtype": "number", "shape": []}}
+
+    def read_configuration(self):
+        return {}
+
+    def describe_configuration(self):
+        return {}
+
+    def fire(self):
+        self.value += 1
+        for cb, _ in list(self.subs):
+            cb()
+
+
+def monitor_options_probe():
+    """(a) a monitor requested with subscribe options keeps them across pause / resume (the engine unsubscribes while paused
+    and re-subscribes with the SAME options); (b) a device that delivers its current value synchronously inside subscribe():
+    if that first delivery fails (a document consumer raises once) the half-made monitor is still known to the engine, so no
+    subscription survives the end of the call"""
+    from bluesky.utils import Msg
+
+    bad = []
+    # (a)
+    for opts in ({"event_type": "setpoint"}, {"event_type": "readback", "dummy": 1}):
+        sig = _MonSig("sig", False)
+        RE, docs = _engine()
+        out = _run(RE, _listplan(Msg("open_run"), Msg("monitor", sig, name="sig_monitor", **opts), Msg("checkpoint"), Msg("null"), Msg("pause"), Msg("null"), Msg("unmonitor", sig), Msg("close_run")))
+        during_pause = list(sig.subs)
+        rounds = 0
+        while str(RE.state) == "paused" and rounds < 4:
+            rounds += 1
+            out = _run_call_catch(RE.resume)
+        case = {"probe": "monitor-options", "options": opts}
+        if str(RE.state) != "idle":
+            bad.append(("monitor-options:call-did-not-finish", f"{case}: {out!r}", case))
+            continue
+        if during_pause:
+            bad.append(("monitor-subscribed-while-paused", f"{len(during_pause)} subscription(s) on the signal while the engine was paused", case))
+        if any(k != opts for k in sig.calls) or len(sig.calls) < 2:
+            bad.append(("monitor-resubscribed-with-different-options", f"monitor(sig, **{opts}): the signal's subscribe() was called with {sig.calls} (first by the monitor message, then after the resume)", case))
+        if sig.subs:
+            bad.append(("monitor-subscription-left", f"{len(sig.subs)} subscription(s) left at idle", case))
+    # (b)
+    for swallow in (True, False):
+        sig = _MonSig("sig", True)
+        RE, docs = _engine()
+        state = {"failed": False}
+
+        def consumer(name, doc, state=state):
+            if name == "event" and not state["failed"]:
+                state["failed"] = True
+                raise OSError("consumer failed on the first monitor event")
+
+        RE.subscribe(consumer)
+
+        def plan(swallow=swallow, sig=sig):
+            yield Msg("open_run")
+            try:
+                yield Msg("monitor", sig, name="sig_monitor")
+            except OSError:
+                if not swallow:
+                    raise
+            yield Msg("null")
+            yield Msg("close_run")
+
+        out = _run(RE, plan())
+        n_after = len(docs)
+        sig.fire()
+        case = {"probe": "monitor-options", "first_delivery_fails": True, "plan_swallows": swallow}
+        if sig.subs:
+            bad.append(("monitor-subscription-left:first-delivery-failed", f"the signal delivers inside subscribe(), the first delivery failed ({'swallowed by the plan' if swallow else 'the plan died'}): {len(sig.subs)} subscription(s) left at idle", case))
+        if len(docs) != n_after:
+            bad.append(("document-after-the-call:first-delivery-failed", f"an update after the call emitted {[n for n, _ in docs[n_after:]]}", case))
+    return bad
+
+
 # ----------------------------------------------------------------------------- C13: responses under the relative / reset wrappers
 def wrapper_response_probe():
     """the value a plan receives for `set` is the status the device returned -- also for the FIRST set on a device under
@@ -1247,7 +1482,7 @@ def _run_call(f):
         return f()
 
 
-PROBES = {"wrapper-response": wrapper_response_probe, "inplan-subscription": inplan_subscription_probe, "equal-instances": equal_instances_probe, "raising-state-hook": raising_state_hook_probe, "replayed-group": replayed_group_probe, "noreplay-pause": noreplay_pause_probe, "second-call": second_call_probe, "nonresumable-wrapper": nonresumable_wrapper_probe, "external-assets": external_assets_probe, "metadata-store": metadata_store_probe, "dying-subscriber": dying_subscriber_probe, "classic-flyer": classic_flyer_probe, "nonrewindable-region": nonrewindable_region_probe, "relative-moves": relative_moves_probe, "stale-deferred-pause": stale_deferred_pause_probe, "reused-message": reused_message_probe, "locate": locate_probe, "run-wrapper-exception": run_wrapper_exception_probe}
+PROBES = {"configuration": configuration_probe, "monitor-options": monitor_options_probe, "wrapper-response": wrapper_response_probe, "inplan-subscription": inplan_subscription_probe, "equal-instances": equal_instances_probe, "raising-state-hook": raising_state_hook_probe, "replayed-group": replayed_group_probe, "noreplay-pause": noreplay_pause_probe, "second-call": second_call_probe, "nonresumable-wrapper": nonresumable_wrapper_probe, "external-assets": external_assets_probe, "metadata-store": metadata_store_probe, "dying-subscriber": dying_subscriber_probe, "classic-flyer": classic_flyer_probe, "nonrewindable-region": nonrewindable_region_probe, "relative-moves": relative_moves_probe, "stale-deferred-pause": stale_deferred_pause_probe, "reused-message": reused_message_probe, "locate": locate_probe, "run-wrapper-exception": run_wrapper_exception_probe}
 
 
 def add_to(res, names):
